@@ -198,4 +198,8 @@ class MatrixData:
         """Imports textual data to a file
 
         """        
-        self.data = numpy.loadtxt(filename)
+        try:
+            self.data = numpy.loadtxt(filename)
+        except ValueError:
+            # complex data are exported as text, too
+            self.data = numpy.loadtxt(filename, dtype=complex)
